@@ -269,6 +269,11 @@ impl<'a> Packet<'a> {
         if matches!(packet_type, PacketType::ConnectionRequest) {
             Ok((0, Packet::read(PacketType::ConnectionRequest, &buffer[1..])?))
         } else if let Some(private_key) = private_key {
+            if sequence_len > 8 {
+                // The prefix byte can announce up to 15 sequence bytes, a sequence has at most 8
+                return Err(NetcodeError::InvalidPacketType);
+            }
+
             let (sequence, aad, read_pos) = {
                 let src = &mut io::Cursor::new(&mut buffer);
                 src.set_position(1);
